@@ -280,7 +280,11 @@ def _mk_eq_fn( fields ):
   return _create_fn(
     '__eq__',
     [ 'self', 'other' ],
-    [ f'return (other.__class__ is self.__class__) and {self_tuple} == {other_tuple}' ]
+    [ 'if other.__class__ is not self.__class__:',
+      # let the other operand decide: Bits == bitstruct compares the packed
+      # value, so bitstruct == Bits has to give the same answer
+      '  return NotImplemented',
+      f'return {self_tuple} == {other_tuple}' ]
   )
 
 #-------------------------------------------------------------------------
